@@ -4,7 +4,7 @@
    (vm_compute) for the finite range in the statement; C16_partial = what is proved of C16_full. *)
 From Coq Require Import List ZArith QArith Bool Arith Lia.
 From GV Require Import Lib.Tree Lib.Graph16 Lib.PolyRefl16 Model.QCount Model.CliqueEq
-                       Proofs.QCountP Proofs.CliqueEqP Proofs.CycleGen.
+                       Proofs.QCountP Proofs.CliqueEqP Proofs.CycleGen Proofs.QQGen.
 Import ListNotations.
 
 (* ------------------------------------------------------------------------------------------------
@@ -127,6 +127,24 @@ Theorem C16_cycle_identity_general : forall n, (3 <= n)%nat ->
 Proof. exact cycle_identity_general. Qed.
 Print Assumptions C16_cycle_identity_general.
 
+(* ---- GENERAL (growth): the brute-force implementation QQ (which counts the REMOVED-edge subsets of size
+   n(n-1)/2 - k that keep K_n connected) equals the number of connected spanning subgraphs of K_n with k KEPT
+   edges, for every n and every k in range: the complement map T |-> K_n \ T is an involution on edge subsets
+   exchanging the sizes (Proofs/QQGen.v; also |E(K_n)| = n(n-1)/2 for every n) *)
+Theorem C16_QQ_eq_brute_general : forall n k, (0 <= k <= tri (Z.of_nat n))%Z ->
+  QQv n k = brute n (Z.to_nat k).
+Proof. exact QQ_eq_brute_general. Qed.
+Print Assumptions C16_QQ_eq_brute_general.
+
+Theorem C16_QQ_counts_connected_graphs : forall n k, (0 <= k <= tri (Z.of_nat n))%Z ->
+  Card (fun S => subl S (all_edges n) /\ length S = Z.to_nat k /\ Connected (seq 0 n) S) (QQv n k).
+Proof. exact QQ_counts_connected_graphs. Qed.
+Print Assumptions C16_QQ_counts_connected_graphs.
+
+Theorem C16_complete_graph_size : forall n, Z.of_nat (length (all_edges n)) = tri (Z.of_nat n).
+Proof. exact all_edges_length. Qed.
+Print Assumptions C16_complete_graph_size.
+
 (* ---- GENERAL: the polynomial the model puts on the wire evaluates, for every valuation of the variables,
    to the code's arithmetic on rationals (so comparing polynomials compares the functions) *)
 Theorem C16_clique_model_semantics : forall l tau P HS,
@@ -217,6 +235,30 @@ Proof.
 Qed.
 Print Assumptions C16_partial.
 
+(* ---- growth: the same four clauses with the cycle clause and the QQ half of the count clause UNBOUNDED;
+   what is still bounded: the clique identity (tau <= 6) and Q = brute (n <= 6) *)
+Definition C16_bounded_v2 : Prop :=
+  (forall tau, (2 <= tau <= 6)%nat -> forall (phi : Q) (Hs : list Q), length Hs = (tau - 1)%nat ->
+     clique_val tau phi Hs == exact_val (seq 0 tau) (all_edges tau) 0 phi (fun v => nth (v - 1) Hs 0)) /\
+  (forall n, (3 <= n)%nat -> forall (u phi : Q),
+     cycle_val n u phi == exact_val (seq 0 n) (cycle_edges n) 0 phi (fun _ => u)) /\
+  (forall n k, (1 <= n <= 6)%nat -> (0 <= k <= tri (Z.of_nat n))%Z -> Qcode n k = brute n (Z.to_nat k)) /\
+  (forall n k, (1 <= n)%nat -> (0 <= k <= tri (Z.of_nat n))%Z -> QQv n k = brute n (Z.to_nat k)) /\
+  (forall nodes edges ak i k, (0 <= k)%Z ->
+     let vs := induced_vs nodes ak i in
+     let es := induced_es vs edges in
+     vs <> [] ->
+     exists c, ncg_model nodes edges ak i k = Val c /\
+               Card (fun T => subl T es /\ length T = Z.to_nat k /\ Connected vs (ediff es T)) c).
+
+Theorem C16_partial_v2 : C16_bounded_v2.
+Proof.
+  exact (conj clique_identity_upto_6 (conj cycle_identity_general
+          (conj (fun n k Hn Hk => proj1 (Q_code_count_upto_6 n k Hn Hk))
+             (conj (fun n k _ Hk => QQ_eq_brute_general n k Hk) ncg_spec)))).
+Qed.
+Print Assumptions C16_partial_v2.
+
 (* ---- non-vacuity: concrete non-trivial inputs meeting the hypotheses *)
 (* the triangle with a pendant vertex, ak = [1;2], i = 0, k = 1: three ways to delete one edge of the
    induced triangle and stay connected; hypotheses of C16_ncg_spec hold *)
@@ -249,3 +291,16 @@ Example C16_nonvacuous_clique :
   Qred (cycle_val 4 (1 # 3) (1 # 2)) = Qred (exact_val (seq 0 4) (cycle_edges 4) 0 (1 # 2) (fun _ => 1 # 3)) /\
   check_clique 3 (px 1) (hvars 3) 1 (padd (clique_expr 3 (px 1) (hvars 3)) (pmul (px 2) (px 1))) = false.
 Proof. vm_compute. repeat split; reflexivity. Qed.
+
+(* growth: beyond the old bounds — the 12-cycle (old bound 10); the identity is one of polynomials, so it is
+   instantiated at the integers u = 3, phi = 2 (cheap to evaluate over 2^12 edge subsets): both sides are
+   -2844328919; QQ(5,6) = brute(5,6) = 205 with the hypothesis 0 <= 6 <= 10 of C16_QQ_eq_brute_general *)
+Example C16_nonvacuous_growth :
+  (3 <= 12)%nat /\
+  Qred (cycle_val 12 (3 # 1) (2 # 1)) = (-2844328919 # 1) /\
+  Qred (exact_val (seq 0 12) (cycle_edges 12) 0 (2 # 1) (fun _ => 3 # 1)) = (-2844328919 # 1) /\
+  (0 <= 6 <= tri 5)%Z /\ QQv 5 6 = 205%Z /\ brute 5 6 = 205%Z.
+Proof.
+  split; [lia|]. split; [vm_compute; reflexivity|]. split; [vm_compute; reflexivity|].
+  split; [vm_compute; split; discriminate|]. split; vm_compute; reflexivity.
+Qed.
